@@ -235,6 +235,25 @@ impl<'a> Cx<'a> {
                 self.un(format!("path `{}` is neither a local, a place, a known constant nor a unit enum variant", segs.join("::")))
             }
             Expr::Field(f) => {
+                // `self.get_rule(kind).precedence`: the entry of the RULES table (emitted as `Fns.rule_precedence`, re-read on every run)
+                if let (Expr::MethodCall(gm), syn::Member::Named(fname)) = (&*f.base, &f.member) {
+                    if fname == "precedence"
+                        && gm.method == "get_rule"
+                        && gm.args.len() == 1
+                        && self.path_of(&gm.receiver).as_deref() == Some("self")
+                        && self.method_body_of("Parser", "get_rule").map(|b| b.replace(' ', "")).as_deref() == Some("{&RULES[kindasusize]}")
+                    {
+                        let want = LT::Enum("TokenKind".into());
+                        let k = self.expr(&gm.args[0], Some(&want))?;
+                        if k.ty != want {
+                            return self.un("get_rule(..) of something that is not a token kind");
+                        }
+                        self.enums_used.insert("TokenKind".into());
+                        self.enums_used.insert("Precedence".into());
+                        self.enums_used.insert("@rule_precedence".into());
+                        return Ok(Tx { pre: k.pre, term: format!("(Fns.rule_precedence {})", k.term), ty: LT::Enum("Precedence".into()) });
+                    }
+                }
                 // a closure handed to the call mechanism: `c.function.arity`, `c.function.chunk.code.as_ptr()` (the latter as a method call below)
                 if self.vm_mode {
                     if let Expr::Field(inner) = &*f.base {
@@ -807,7 +826,8 @@ impl<'a> Cx<'a> {
                     Some(ap) => {
                         arg_places.insert(pn.clone(), ap);
                     }
-                    None => return self.un(format!("argument `{}` of translated `{}::{}` is not a place", toks(a), head, m.method)),
+                    // an object built on the spot (`&Token::from_string(..)`): the call is treated like one of an untranslated method
+                    None => return Ok(None),
                 }
             } else {
                 let want = sig.params.get(vi).cloned();
@@ -947,7 +967,7 @@ impl<'a> Cx<'a> {
         // `self.m(args)` / `self.compiler().m(args)` in expression position where `m` is not translated and answers a scalar, an optional
         // pair of numbers or `Result<(), CompilerError>`: an effect (logged in order, with its arguments) whose answer is an input of
         // the generated function; after a `&mut self` callee every place is re-read
-        if !self.vm_mode && !self.callees.contains_key(&name) {
+        if !self.vm_mode && (!self.callees.contains_key(&name) || self.path_of(&m.receiver).as_deref() == Some("self.compiler()")) {
             let rp = self.path_of(&m.receiver);
             let owner: Option<String> = match rp.as_deref() {
                 Some("self") => self.self_ty.clone(),
